@@ -2,6 +2,8 @@
 
 package main
 
+import "strings"
+
 // generators for C07; every random choice comes from the one Rng of the run.
 
 const c07MaxPhys = int64(1) << 46
@@ -116,7 +118,7 @@ func c07ProfTypes(r *Rng, core []int, aligned []c07Type) []c07Type {
 // conversions: the new unit must divide the value's physical quantity)
 func c07Converted(r *Rng, p *c07Prof) c07Prof {
 	perm := c07Perm(r, len(p.Types))
-	q := c07Prof{}
+	q := c07Prof{Build: p.Build}
 	newUnits := make([]string, len(p.Types))
 	for j, t := range p.Types {
 		newUnits[j] = t.Unit
@@ -222,6 +224,16 @@ func c07GenCLI(r *Rng, i int) *c07Case {
 					p.Samples[k].Values[j] = int64(1 + r.Intn(9))
 				}
 			}
+		}
+	}
+	if !strings.HasPrefix(cs.Strategy, "self-difference") && r.Chance(50) {
+		// profiles from different builds: entries must still be combined by name
+		cs.Strategy += "+builds"
+		for k := range cs.Sources {
+			cs.Sources[k].Build = r.Intn(3)
+		}
+		for k := range cs.Bases {
+			cs.Bases[k].Build = 1 + r.Intn(3)
 		}
 	}
 	common := c07CommonTypes(cs)
